@@ -7,12 +7,20 @@
 EXTENDS Paginate, VerifTrace
 
 VARIABLE l
+\* ClassMaps of the initial state only: every reset line brings its own kind and classes
+TraceMaps == [k \in Kinds |-> {[i \in Ids |-> ShortClass]}]
 tvars == <<svars, l>>
 
+\* the reset line names the feature kind, the class of every id (e.clsmap, a sequence = a function on 1..N) and the
+\* byte length of every concrete unique id (e.lens): the realisation must lie in the size range of its class
+SizeOfClass(c) == CHOOSE s \in SizesOf(kind') : \E f \in FlavoursOf(kind') : c = s \o "/" \o f
 TReset(e) ==
   /\ registered' = AsSet(e.init) /\ pageSize' = e.ps
+  /\ kind' = e.kind /\ cls' = [i \in Ids |-> e.clsmap[i]]
+  /\ kind' \in Kinds /\ \A i \in Ids : cls'[i] \in Classes(kind')
+  /\ \A i \in Ids : LET rg == SizeRange(SizeOfClass(cls'[i])) IN rg[1] <= e.lens[i] /\ e.lens[i] <= rg[2]
   /\ idxValid' = FALSE /\ idx' = <<>>
-  /\ tActive' = FALSE /\ tDone' = FALSE /\ tCursor' = 0 /\ tHidden' = {} /\ tSeen' = <<>>
+  /\ tActive' = FALSE /\ tDone' = FALSE /\ tCursor' = 0 /\ tEndCls' = NoClass /\ tHidden' = {} /\ tSeen' = <<>>
   /\ tStable' = {} /\ tInit' = {} /\ tMut' = FALSE /\ nMut' = 0 /\ nTrav' = 0
   /\ res' = [kind |-> "none"]
 
@@ -27,7 +35,7 @@ IterFrom(c, H) ==
   /\ res' = [kind |-> "iter", items |-> Walk(SortKeys, pageSize, c, Cardinality(Ids) + 1, H),
              set |-> {i \in registered : i > c} \ H]
   /\ idxValid' = TRUE /\ idx' = SortKeys
-  /\ UNCHANGED <<registered, pageSize, nMut>>
+  /\ UNCHANGED <<registered, pageSize, kind, cls, nMut>>
   /\ TravUnchanged
 
 Stutter == UNCHANGED svars
@@ -40,7 +48,7 @@ TStep(e) ==
                [] e.op = "replace" -> Replace(e.id)
                [] e.op = "remove" -> Remove(e.id))
     [] e.ev = "start" -> StartTraversal(AsSet(e.hid))
-    [] e.ev = "page" -> FetchPage /\ PageMatches(e)
+    [] e.ev = "page" -> FetchPage /\ PageMatches(e) /\ tEndCls' = e.endcls
     [] e.ev = "iter" -> /\ e.err = ""
                         /\ IterFrom(e.pos, AsSet(e.hid))
                         /\ res'.items = e.seq /\ e.man = e.seq
